@@ -385,6 +385,19 @@ def execLine (s : Sess) (line : String) : StepOut :=
     | some (some e, r) => finish s (w.getRelation e r) (fun s t => (s, showEnt t))
     | some (none, _) => badRef s
     | none => badOp s
+  else if cmd == "hasu" || cmd == "getu" || cmd == "relu" then
+    -- the unchecked accessors: no liveness check; a removed entity's slot holds no table (nil dereference in Go),
+    -- an id beyond the index is an index panic, a recycled id answers for its current occupant
+    match runP (do let e ← pEnt H; let i ← pComp B; pure (e, i)) args with
+    | some (some e, i) =>
+      (match w.index.getD e.id none with
+       | none => { s := s, lines := [panicLine .crash] }
+       | some l =>
+         if cmd == "hasu" then { s := s, lines := [okLine (b01 (Mask.get (w.tableMask l.tbl) i))] }
+         else if cmd == "getu" then { s := s, lines := [okLine (showVal (w.cell l.tbl l.row i))] }
+         else { s := s, lines := [okLine (showEnt (w.tableOf l.tbl).target)] })
+    | some (none, _) => badRef s
+    | none => badOp s
   else if cmd == "relset" then
     match runP (do let e ← pEnt H; let r ← pComp B; let t ← pEnt H; pure (e, r, t)) args with
     | some (some e, r, some t) => finish s (w.setRelation e r t) (fun s _ => (s, ""))
